@@ -156,6 +156,8 @@ def systematic():
     bases = []
     for kind in ('out', 'resp'):
         bases += [(kind, [['create'], ['conn_fail']]), (kind, [['create'], ['conn_timeout']]), (kind, [['create'], ['cancel']]),
+                  (kind, [['create'], ['conn_fail', 'oserror'], ['send', 'ok']]), (kind, [['create'], ['conn_fail', 'overflow'], ['send', 'ok']]),
+                  (kind, [['create'], ['conn_fail', 'unicode']]), (kind, [['create'], ['conn_fail', 'value']]),
                   (kind, [['create'], ['conn_ok', 'fail']]), (kind, [['create'], ['conn_ok', 'hang'], ['send_timeout']]),
                   (kind, [['create'], ['conn_ok', 'hang'], ['cancel']])]
         for end in READER_ENDS:
@@ -214,12 +216,13 @@ def systematic():
 
 
 POOL = {
-    'out': [['conn_ok', 'ok'], ['conn_ok', 'ok'], ['conn_ok', 'fail'], ['conn_ok', 'hang'], ['conn_fail'], ['conn_timeout'], ['cancel'],
+    'out': [['conn_ok', 'ok'], ['conn_ok', 'ok'], ['conn_ok', 'fail'], ['conn_ok', 'hang'], ['conn_fail'], ['conn_fail', 'overflow'],
+            ['conn_fail', 'unicode'], ['conn_timeout'], ['cancel'],
             ['send_timeout']],
     'in': [['init', 'peerinit_P'], ['init', 'peerinit_P'], ['init', 'peerinit_F'], ['init', 'peerinit_D'], ['init', 'pierce_known'],
            ['init', 'pierce_unknown'], ['init', 'other'], ['init', 'eof'], ['init', 'partial'], ['init', 'err'], ['init', 'timeout'],
            ['init', 'undecodable']],
-    'server': [['conn_ok', 'ok'], ['conn_ok', 'ok'], ['conn_fail'], ['conn_timeout'], ['cancel'], ['start_reader'], ['start_reader'], ['create']],
+    'server': [['conn_ok', 'ok'], ['conn_ok', 'ok'], ['conn_fail'], ['conn_fail', 'value'], ['conn_timeout'], ['cancel'], ['start_reader'], ['start_reader'], ['create']],
 }
 COMMON = [['feed', 'msg'], ['feed', 'msg'], ['feed', 'eof'], ['feed', 'partial'], ['feed', 'err'], ['feed', 'timeout'], ['feed', 'undecodable'],
           ['send', 'ok'], ['send', 'ok'], ['send', 'fail'], ['send', 'hang'], ['qsend', 'ok'], ['qsend', 'fail'], ['tail_disc', 'feed_first'],
